@@ -101,6 +101,7 @@ func props() []prop {
 			Units: []unit{
 				{Check: "histories", Pkg: "internal/actor", Shards: [2]int{8, 16}, Timeout: [2]time.Duration{6 * min, 40 * min}, CrashKey: "c03-crash", OnlyKinds: []string{"c03-", "harness-"}},
 				{Check: "supmatrix", Pkg: "internal/actor", Shards: [2]int{8, 16}, Timeout: [2]time.Duration{5 * min, 30 * min}, OnlyKinds: []string{"c03-"}},
+				{Check: "mailboxsched", Pkg: "internal/mailbox", Instr: []string{"internal/mailbox/unbounded_mailbox.go"}, Shards: [2]int{8, 16}, Timeout: [2]time.Duration{5 * min, 40 * min}, OnlyKinds: []string{"lost-message", "lost-wakeup", "duplicate-delivery"}},
 			},
 		},
 		{
